@@ -127,7 +127,10 @@ class SynthWiki:
             t = kw.get("page")
             if t is None and kw.get("oldid"):
                 p = self.byrev.get(int(kw["oldid"]))
-                t = p[0]["title"] if p else "?"
+                t = p[0]["title"] if p else None
+            if t is None or self.resolve(str(t).replace("_", " "))[0] not in self.pages:
+                # (what MediaWiki answers for a page that does not exist)
+                return {"error": {"code": "missingtitle", "info": "The page you specified doesn't exist."}}
             return {"parse": {"title": t, "text": {"*": "<div class=\"mw-parser-output\"><p>html of %s</p></div>" % t}}}
         return {"error": {"code": "unknown_action", "info": "unknown action %r" % action}}
 
